@@ -59,6 +59,38 @@ Qed.
 Lemma int16_be x : 0 <= x < 65536 -> int_to_bytes x 2 = be 2 x.
 Proof. intros H. apply (int_to_bytes_fits x 2); [lia|]. change (256 ^ 2) with 65536. lia. Qed.
 
+(* ---------- GNU stubs: String2Key.parse inverts String2Key.__bytearray__ (repair 05bf06b) ---------- *)
+(* extension 1 (no secret) has no serial; extension 2 (divert to card) keeps at most 16 octets of serial number *)
+Definition wf_gnu (u a ext : Z) (serial : bytes) : Prop :=
+  (u = 254 \/ u = 255) /\ valid_symalg a = true /\ (ext = 1 /\ serial = [] \/ ext = 2 /\ (length serial <= 16)%nat).
+
+Lemma s2k_parse_emit_gnu u a ext serial rest : wf_gnu u a ext serial ->
+  s2k_parse (blob_emit (BGnu u a ext serial rest)) = Some (inr (BGnu u a ext serial rest), []).
+Proof.
+  intros (Hu & Ha & He). unfold blob_emit, s2k_emit_gnu, gnu_magic.
+  assert (Hu' : (u =? 254) || (u =? 255) = true) by lia.
+  destruct He as [[-> ->] | [-> Hl]].
+  - cbn [app Z.eqb Pos.eqb]. unfold s2k_parse. rewrite Hu', Ha. reflexivity.
+  - change (2 =? 2) with true. cbv iota. cbn [app]. unfold s2k_parse. rewrite Hu', Ha.
+    change (valid_spec 101) with true. change (101 =? 101) with true. cbn [andb].
+    change (eqb_bytes (firstn 4 (0 :: 71 :: 78 :: 85 :: 2 :: Z.of_nat (length serial) :: serial ++ rest)) gnu_magic) with true.
+    cbv iota. change (skipn 4 (0 :: 71 :: 78 :: 85 :: 2 :: Z.of_nat (length serial) :: serial ++ rest))
+      with (2 :: Z.of_nat (length serial) :: serial ++ rest).
+    change (2 =? 1) with false. change (2 =? 2) with true. cbv iota zeta.
+    rewrite Z.min_l by lia. rewrite Nat2Z.id.
+    rewrite (firstn_app_exact serial rest _ eq_refl), (skipn_app_exact serial rest _ eq_refl). reflexivity.
+Qed.
+
+(* the rule before the repair wrote no length octet for an empty serial: the reader then takes the first octet of whatever
+   follows as the length *)
+Lemma s2k_parse_emit_gnu_old_refuted : exists u a ext serial rest, wf_gnu u a ext serial /\
+  s2k_parse (s2k_emit_gnu_old u a ext serial ++ rest) <> Some (inr (BGnu u a ext serial rest), []).
+Proof.
+  exists 255, 0, 2, [], [3; 9; 9; 9]. split.
+  - split; [right; reflexivity|]. split; [reflexivity|]. right. split; [reflexivity | cbn; lia].
+  - vm_compute. intros H. discriminate H.
+Qed.
+
 Section Prims.
   Variable cfb_enc cfb_dec : Z -> bytes -> bytes -> bytes -> bytes.
   Variable sha1 : bytes -> bytes.
